@@ -141,6 +141,7 @@ class FnTir:
         self.env = {}          # local name -> string-TIR of its initialiser, evaluated at the let (scoping/shadowing respected)
         self.env_expr = {}     # local name -> initialiser expression (latest binding; for guards that mention a local)
         self.env_closures = {}  # local name -> closure expression bound by `let f = |..| {..}`
+        self.env_opt = {}       # local name -> ("none", None) | ("some", payload expr): known Option constructor (per arm of a tuple let)
         self.params = []
         self.unknown = []      # constructs outside the supported fragment (reported by rules that depend on them)
         for p in self.fn.get("params") or []:
@@ -177,6 +178,45 @@ class FnTir:
     def guard(self, cond, taken):
         return {"text": text(cond), "e": cond, "taken": taken}
 
+    def tuple_let_arms(self, s):
+        """[(guard, [(name, component expr), ..]), ..] for `let (a, b, ..) = match / if ..` whose arms are all tuple literals of
+        the pattern's arity (at least two arms, no mutable bindings); None otherwise"""
+        if not (isinstance(s, dict) and s.get("k") == "stmt_let" and isinstance(s.get("init"), dict) and s.get("els") is None):
+            return None
+        pat = s["pat"]
+        if pat.get("k") != "tuple" or not all(x.get("k") in ("bind", "wild") and not x.get("mut") for x in pat["subs"]):
+            return None
+        init = H.peel_ref(H.peel(s["init"]))
+        n = len(pat["subs"])
+
+        def tup(x):
+            x = H.peel_ref(H.peel(x))
+            while isinstance(x, dict) and x.get("k") == "block" and not x.get("stmts") and x.get("expr") is not None:
+                x = H.peel_ref(H.peel(x["expr"]))
+            return x if isinstance(x, dict) and x.get("k") == "tuple" and len(x.get("es") or []) == n else None
+        arms = []
+        if init.get("k") == "match" and init.get("src") == "Normal":
+            for arm in init["arms"]:
+                if H.diverges(H.peel(arm["body"])) or self.is_diverging(arm["body"]):
+                    continue
+                t_ = tup(arm["body"])
+                if t_ is None:
+                    return None
+                g = {"text": pat_text(arm["pat"]) + ((" if " + text(arm["guard"])) if arm.get("guard") is not None else ""),
+                     "pat": arm["pat"], "scrut": init["scrut"], "arm_guard": arm.get("guard"), "sp": arm.get("sp")}
+                arms.append((g, t_))
+        elif init.get("k") == "if" and init.get("else") is not None:
+            for br, taken in ((init["then"], True), (init["else"], False)):
+                t_ = tup(br)
+                if t_ is None:
+                    return None
+                arms.append((self.guard(init["cond"], taken), t_))
+        else:
+            return None
+        if len(arms) < 2:
+            return None
+        return [(g, [(p["name"], x) for p, x in zip(pat["subs"], t_["es"]) if p.get("k") == "bind"]) for g, t_ in arms]
+
     # ---- effects -------------------------------------------------------------------------------
     def W(self, e):
         if e is None:
@@ -187,7 +227,36 @@ class FnTir:
         if k in ("lit", "local", "path", "continue_"):
             return ("seq", [])
         if k == "block":
-            items = [self.W(s) for s in e.get("stmts") or []]
+            stmts = list(e.get("stmts") or [])
+            items = []
+            for si, s in enumerate(stmts):
+                arms = self.tuple_let_arms(s)
+                if arms is not None and getattr(self, "_split", 0) < 3:
+                    # `let (a, b) = match x { A => (a1, b1), B => (a2, b2) };`: the components are correlated - the rest of
+                    # the block is taken once per arm with the names bound to that arm's components
+                    self._split = getattr(self, "_split", 0) + 1
+                    rest = {"k": "block", "stmts": stmts[si + 1:], "expr": e.get("expr")}
+                    pre = self.W_nonsink_args(H.peel_ref(s["init"]).get("scrut") or H.peel_ref(s["init"]).get("cond"))
+                    alts = []
+                    for g, binds in arms:
+                        saved = (dict(self.env), dict(self.env_expr), dict(self.env_opt))
+                        for nm, x in binds:
+                            self.env[nm] = self.S(x)
+                            self.env_expr[nm] = x
+                            px = H.peel_ref(x)
+                            if px.get("k") == "path" and px.get("def") == "core::option::Option::None":
+                                self.env_opt[nm] = ("none", None)
+                            elif px.get("k") == "call" and px.get("callee") == "core::option::Option::Some" and len(px.get("args") or []) == 1:
+                                self.env_opt[nm] = ("some", px["args"][0])
+                            else:
+                                self.env_opt.pop(nm, None)
+                        alts.append((g, self.W(rest)))
+                        self.env, self.env_expr, self.env_opt = saved
+                    self._split -= 1
+                    items.append(pre)
+                    items.append(("alt", alts))
+                    return ("seq", items)
+                items.append(self.W(s))
             if e.get("expr") is not None:
                 items.append(self.W(e["expr"]))
             return ("seq", items)
@@ -233,6 +302,30 @@ class FnTir:
                                       ({"text": "let-else failed", "e": e, "taken": False}, self.W(e["els"]))]))
             return ("seq", items)
         if k == "if":
+            c0 = e["cond"]
+            if isinstance(c0, dict) and c0.get("k") == "let" and isinstance(c0.get("init"), dict):
+                iv = H.peel_ref(c0["init"])
+                pt = c0.get("pat") or {}
+                if iv.get("k") == "local" and iv.get("name") in self.env_opt and pt.get("k") == "variant" and \
+                        (pt.get("path") or {}).get("def") in ("core::option::Option::Some", "core::option::Option::None"):
+                    # `if let Some(v) = offset` where `offset` is known (per arm of a tuple let) to be None / Some(x)
+                    kind, payload = self.env_opt[iv["name"]]
+                    want_some = pt["path"]["def"].endswith("Some")
+                    if (kind == "some") == want_some:
+                        subs = pt.get("subs") or []
+                        if want_some and len(subs) == 1 and subs[0].get("k") == "bind" and payload is not None:
+                            saved = (self.env.get(subs[0]["name"]), self.env_expr.get(subs[0]["name"]))
+                            self.env[subs[0]["name"]] = self.S(payload)
+                            self.env_expr[subs[0]["name"]] = payload
+                            r = self.W(e["then"])
+                            for d_, v_ in ((self.env, saved[0]), (self.env_expr, saved[1])):
+                                if v_ is None:
+                                    d_.pop(subs[0]["name"], None)
+                                else:
+                                    d_[subs[0]["name"]] = v_
+                            return r
+                        return self.W(e["then"])
+                    return self.W(e["else"]) if e.get("else") is not None else ("seq", [])
             pre = self.W(e["cond"])
             th = self.W(e["then"])
             el = self.W(e["else"]) if e.get("else") is not None else ("seq", [])
@@ -585,6 +678,35 @@ class FnTir:
                         continue
                     alts.append((g, self.component(arm["body"], i, depth + 1)))
                 return ("alt", alts)
+            if k in ("call", "mcall") and depth < 3:
+                # a crate helper that returns the tuple (`fn split(..) -> (&str, &'static str)`): the component of its result
+                for d in (H.callee(e), e.get("callee")):
+                    cf = self.f.fns.get(d or "")
+                    if cf is not None and cf.get("hir") is not None and (d or "").startswith("crate::") and d != self.name:
+                        try:
+                            ct = fn_tir(self.f, d)
+                            r = ct.component(ct.body, i, depth + 1)
+                        except Exception:
+                            r = None
+                        if r is not None and not (r[0] == "hole" and r[1] == "UNKNOWN"):
+                            # run-time parts of the helper's result depend on what the caller handed in: their provenance is
+                            # the call expression here, not the helper's own locals
+                            def reroot(x):
+                                if not isinstance(x, tuple) or not x:
+                                    return x
+                                if x[0] == "hole" and x[1] in ("UNKNOWN", "STR", "DISPLAY"):
+                                    d_ = dict(x[2] or {})
+                                    d_["of"] = e0
+                                    d_["node"] = e0
+                                    d_["what"] = "%s.%d" % (text(e0), i)
+                                    return ("hole", x[1], d_) + tuple(x[3:])
+                                if x[0] == "seq":
+                                    return ("seq", [reroot(y) for y in x[1]])
+                                if x[0] == "alt":
+                                    return ("alt", [(g_, reroot(y)) for g_, y in x[1]])
+                                return x
+                            return reroot(r)
+                        break
         e = e0 if isinstance(e0, dict) else {}
         return ("hole", "UNKNOWN", {"what": "%s.%d" % (text(e), i), "of": e, "idx": i}, e.get("sp"))
 
